@@ -110,7 +110,7 @@ int main(int argc, char** argv) {
     if (listBases) { for (auto& b : bases) printf("%s %zu bytes, %zu structural bytes\n", b.name.c_str(), b.bytes.size(), b.structural.size()); return 0; }
     // ---- damage list
     std::vector<Damage> dm; const int BV[5] = {0, 1, 0x7F, 0x80, 0xFF};
-    for (size_t bi = 0; bi < bases.size(); ++bi) {
+    for (size_t bi = 0; bi < bases.size() && profile != "pairs"; ++bi) {
         const Base& B = bases[bi]; size_t n = B.bytes.size();
         for (size_t t = 0; t < n; ++t) dm.push_back({(int)bi, 'T', t, 0, 0, 0});
         size_t lim = std::min(n, B.F.dataOffset + 512);
@@ -122,7 +122,15 @@ int main(int argc, char** argv) {
         if (profile != "boundary") for (auto& sb : B.structural) for (int v = 0; v < 256; ++v) { bool isBV = false; for (int x : BV) if (x == v) isBV = true; if (!isBV && (unsigned char)B.bytes[sb.first] != v) dm.push_back({(int)bi, 'B', sb.first, 0, v, 0}); }
     }
     size_t singles = dm.size();
-    if (profile != "boundary") {   // pairs of structural bytes x boundary values (quick: the two smallest bases, thorough: all; a reduced structural set for the largest)
+    if (profile == "pairs") {   // EVERY pair of structural bytes of the small bases x {1, 0x7F, 0xFF}^2 (meant for the sanitizer build: two fields that are each harmless alone)
+        std::vector<int> PV = thorough ? std::vector<int>{1, 0x7F, 0xFF} : std::vector<int>{1, 0x7F};
+        for (size_t bi = 0; bi < bases.size(); ++bi) {
+            const Base& B = bases[bi]; if (!(B.name == "points" || (thorough && (B.name == "lean" || B.name == "blank")))) continue;
+            std::vector<size_t> st; for (auto& sb : B.structural) st.push_back(sb.first);
+            for (size_t i = 0; i < st.size(); ++i) for (size_t j = i + 1; j < st.size(); ++j) for (int va : PV) for (int vb : PV) if ((unsigned char)B.bytes[st[i]] != va && (unsigned char)B.bytes[st[j]] != vb) dm.push_back({(int)bi, 'P', st[i], st[j], va, vb});
+        }
+    }
+    else if (profile != "boundary") {   // pairs of structural bytes x boundary values (quick: the two smallest bases, thorough: all; a reduced structural set for the largest)
         for (size_t bi = 0; bi < bases.size(); ++bi) {
             const Base& B = bases[bi]; if (!thorough && !(B.name == "blank" || B.name == "points")) continue;
             std::vector<size_t> st; for (auto& sb : B.structural) st.push_back(sb.first);
